@@ -252,7 +252,7 @@ def run_misc():
 
 def replay(case, key):
     out = _res()
-    for f in (run_errors, run_recovery, run_misc, run_actions, run_layout, run_dyn_disambiguation, run_items):
+    for f in (run_errors, run_recovery, run_misc, run_actions, run_layout, run_dyn_disambiguation, run_items, run_closure_follow, run_scanner):
         r = f()
         out["violations"].extend(r["violations"])
     return out
@@ -470,3 +470,110 @@ def run_items():
     out["rule"] = ("companion of contracts/tables_items.py: real LRItem, right-hand sides of length 0..3 x every position x "
                    "follow in {None, {}, {x}, {x,y}}; the follow set of the advanced item is an independent copy")
     return out
+
+
+def run_closure_follow():
+    """companion of contracts/closure_follow.py: the real closure._new_item_follow on every production rest of length
+    0..3 over symbols whose FIRST sets range over the subsets of {EMPTY, x, y}, item follow in {{}, {p}, {p, x}}:
+    result == FIRST(beta L) computed independently; arguments unchanged; result is a new set"""
+    from parglare.closure import _new_item_follow
+    from parglare.grammar import EMPTY
+    out = _res()
+    firsts = [frozenset(c) for r in range(0, 4) for c in itertools.combinations([EMPTY, "x", "y"], r)]
+    for n in range(0, 4):
+        for fs in itertools.product(firsts, repeat=n):
+            for fol in (set(), {"p"}, {"p", "x"}):
+                syms = [f"s{i}" for i in range(n)]
+                first_sets = {"B": {"b"}}
+                for s_, f_ in zip(syms, fs):
+                    first_sets[s_] = set(f_)
+                item = NS(production=NS(rhs=["B"] + syms), position=0, follow=set(fol))
+                before = {k: set(v) for k, v in first_sets.items()}
+                out["evaluations"] += 1
+                out["nontrivial"] += 1 if n else 0
+                key = {"FIRST of the symbols after the dot": [sorted(str(x) for x in f_) for f_ in fs], "item follow": sorted(fol)}
+                try:
+                    r = _new_item_follow(item, first_sets)
+                except Exception as e:  # noqa
+                    _viol(out, "closure._new_item_follow", key, f"raised {type(e).__name__}: {str(e)[:80]}")
+                    continue
+                exp, nullable = set(), True
+                for f_ in fs:
+                    exp |= set(f_) - {EMPTY}
+                    if EMPTY not in f_:
+                        nullable = False
+                        break
+                if nullable:
+                    exp |= fol
+                ok = r == exp and r is not item.follow and all(r is not v for v in first_sets.values())
+                ok = ok and item.follow == fol and {k: set(v) for k, v in first_sets.items()} == before
+                if not ok:
+                    _viol(out, "closure._new_item_follow", key, {"observed": sorted(str(x) for x in r),
+                                                                "expected": sorted(str(x) for x in exp)})
+    out["covers"] = ["closure._new_item_follow"]
+    out["rule"] = ("companion of contracts/closure_follow.py: real _new_item_follow, rests of length 0..3 x FIRST sets over "
+                   "the subsets of {EMPTY, x, y} x item follow in {{}, {p}, {p,x}}")
+    return out
+
+
+def run_scanner():
+    """companion of contracts/scanner.py: the real Parser._token_recognition on stub states with up to 3 expected
+    terminals x priorities {5, 10} (in scanner order) x match / no match x finish flags: every token is a match of an
+    expected terminal at the position; no token iff nothing matches; and (bounded only) the tokens are exactly the
+    matches of the highest matching priority up to the first finishing match"""
+    from parglare.parser import Parser
+    out = _res()
+    stub = NS(debug=False)
+    for n in range(0, 4):
+        for prios in itertools.product((10, 5), repeat=n):
+            if list(prios) != sorted(prios, reverse=True):
+                continue
+            for matches in itertools.product((None, "", "ab"), repeat=n):
+                for flags in itertools.product((False, True), repeat=n):
+                    syms = []
+                    for i in range(n):
+                        syms.append(NS(name=f"t{i}", prior=prios[i], recognizer=(lambda inp, pos, r=matches[i]: r)))
+                    head = NS(input_str="abab", position=2, state=NS(actions={s_: [] for s_ in map(id, syms)},
+                                                                     finish_flags=list(flags)))
+                    # (dict keyed by the symbols themselves, in scanner order)
+                    head.state.actions = _SymDict(syms)
+                    out["evaluations"] += 1
+                    out["nontrivial"] += 1 if sum(bool(m) for m in matches) > 1 else 0
+                    key = {"priorities": list(prios), "recogniser results": list(matches), "finish_flags": list(flags)}
+                    try:
+                        toks = Parser._token_recognition(stub, head)
+                    except Exception as e:  # noqa
+                        _viol(out, "Parser._token_recognition", key, f"raised {type(e).__name__}: {str(e)[:80]}")
+                        continue
+                    exp = []
+                    top = None
+                    for i in range(n):
+                        if matches[i]:
+                            if top is None:
+                                top = prios[i]
+                            if prios[i] < top:
+                                break
+                            exp.append(i)
+                            if flags[i]:
+                                break
+                    got = [syms.index(t.symbol) for t in toks]
+                    ok = got == exp and all(t.value == matches[i] and t.position == 2 for t, i in zip(toks, got))
+                    if not ok:
+                        _viol(out, "Parser._token_recognition", key, {"tokens_of_candidates": got, "expected": exp})
+    out["covers"] = ["Parser._token_recognition"]
+    out["rule"] = ("companion of contracts/scanner.py: real _token_recognition, up to 3 expected terminals x priorities "
+                   "{10, 5} in scanner order x recogniser results {None, '', 'ab'} x finish flags")
+    return out
+
+
+class _SymDict(dict):
+    """an ordered mapping keyed by (unhashable) stub symbols: only iteration is used by the scanner"""
+    def __init__(self, syms):
+        super().__init__()
+        self._syms = list(syms)
+
+    def __iter__(self):
+        return iter(self._syms)
+
+    def __len__(self):
+        return len(self._syms)
